@@ -105,6 +105,161 @@ def int_inputs(d, rng, nrandom):
     return sorted(v for v in vals if lo <= v <= hi)
 
 
+# ------------------------------------------------------------------ floats
+
+ABS_FLOAT = {   # abstract point of MC_ValueFloat -> (f32 bits, f64 bits, literal text or None)
+    "ninf": (0xff800000, 0xfff0000000000000, None),
+    "nmax": (0xff7fffff, 0xffefffffffffffff, None),
+    "n55": (0xc0b00000, 0xc016000000000000, "-5.5"),
+    "ntiny": (0x80000001, 0x8000000000000001, None),
+    "nz": (0x80000000, 0x8000000000000000, "-0.0"),
+    "pz": (0x00000000, 0x0000000000000000, "0.0"),
+    "ptiny": (0x00000001, 0x0000000000000001, None),
+    "p55": (0x40b00000, 0x4016000000000000, "5.5"),
+    "pmax": (0x7f7fffff, 0x7fefffffffffffff, None),
+    "pinf": (0x7f800000, 0x7ff0000000000000, None),
+    "nan1": (0x7fc00000, 0x7ff8000000000000, None),
+    "nan2": (0xffc00001, 0xfff8000000000001, None),
+}
+for _u, (_b32, _b64, _lit) in ABS_FLOAT.items():
+    if _lit is not None:
+        render_value.FLOAT_LITS[("f32", _b32)] = _lit
+        render_value.FLOAT_LITS[("f64", _b64)] = _lit
+
+
+def instantiate_float(ad, ty, did):
+    """abstract float declaration (values [c, r, u]) -> concrete declaration (values = bit patterns)."""
+    ix = 0 if ty == "f32" else 1
+
+    def phi(v):
+        return ABS_FLOAT[v["u"]][ix]
+    d = copy.deepcopy(ad)
+    d["id"] = did
+    d["ty"] = ty
+    for s in d["san"]:
+        s["p"] = [phi(v) for v in s["p"]]
+    for r in d["val"]:
+        r["b"] = phi(r["b"])
+        r["p"] = [phi(v) for v in r["p"]]
+        if r.get("sp") == "lit" and r["k"] in ("greater", "greater_or_equal", "less", "less_or_equal") \
+                and (ty, r["b"]) not in render_value.FLOAT_LITS:
+            r["sp"] = "expr"
+    d["dflt"] = [phi(v) for v in d["dflt"]]
+    return d
+
+
+def float_specials(ty):
+    ix = 0 if ty == "f32" else 1
+    S = {v[ix] for v in ABS_FLOAT.values()}
+    w = FLOAT_TYPES[ty]
+    mant = 23 if w == 32 else 52
+    one = f_bits(ty, 1.0)
+    S.update({one, f_bits(ty, -1.0), one + 1, one - 1,
+              (1 << mant),            # min normal
+              (1 << mant) - 1,        # max subnormal
+              f_bits(ty, 5.5) + 1, f_bits(ty, 5.5) - 1,
+              f_bits(ty, -5.5) + 1, f_bits(ty, -5.5) - 1,
+              # NaNs: signalling payloads, all-ones payload, negative quiet
+              ((1 << (w - 1 - mant)) - 1 << mant) | 1,
+              ((1 << (w - 1)) - 1),
+              (1 << w) - 1})
+    return S
+
+
+def float_inputs(d, rng, nrandom):
+    ty = d["ty"]
+    w = FLOAT_TYPES[ty]
+    vals = set(float_specials(ty))
+    marks = set()
+    for s in d["san"]:
+        marks.update(s["p"])
+    for r in d["val"]:
+        if r["k"] in ("greater", "greater_or_equal", "less", "less_or_equal"):
+            marks.add(r["b"])
+        marks.update(r["p"])
+    for b in marks:
+        for k in (-2, -1, 1, 2):
+            if 0 <= b + k < (1 << w):
+                vals.add(b + k)
+    for _ in range(nrandom):
+        vals.add(rng.getrandbits(w))
+    return sorted(vals)
+
+
+# ------------------------------------------------------------------ strings / any
+
+SIGMA = [0, 32, 8195, 97, 65, 223, 304, 233, 769, 49]
+# real-Unicode probes beyond the model alphabet (the environment tables of the events cover them)
+WHITE_SPACE = [0x9, 0xA, 0xB, 0xC, 0xD, 0x20, 0x85, 0xA0, 0x1680] + list(range(0x2000, 0x200B)) + [0x2028, 0x2029, 0x202F, 0x205F, 0x3000]
+SPECIAL_STRINGS = [
+    [0x391, 0x3A3], [0x3A3], [0x3A3, 0x391], [0x61, 0x3A3, 0x20], [0x3C2],          # final sigma contexts
+    [0x130], [0x49, 0x307], [0x131], [0xDF], [0x1E9E], [0xFB00], [0xFB01], [0x149],  # case-expanding
+    [0x1F88], [0x1C5], [0x10400], [0x1F600], [0xE9], [0x65, 0x301], [0x200B], [0xFEFF],
+    [0x61, 0x0, 0x62], [0x41, 0x42, 0x43, 0x44], [0x61] * 5, [0x20, 0x61, 0x20, 0x62, 0x20],
+]
+
+
+def instantiate_plain(ad, did):
+    d = copy.deepcopy(ad)
+    d["id"] = did
+    if d["fam"] == "string":
+        d["dflt"] = [tuple(v) for v in d["dflt"]]
+    if d["fam"] == "any":
+        d["dflt"] = [tuple(v) for v in d["dflt"]]
+        if d["ty"] == "Vec<T>":
+            d["inner"] = "Vec<T>"
+            d["gen_decl"] = "<T: Ord>"
+            d["gen_use"] = "<i32>"
+        else:
+            d["inner"] = "Vec<i32>"
+    return d
+
+
+def string_inputs(d, rng, nrandom):
+    vals = {()}
+    for a in SIGMA:
+        vals.add((a,))
+        for b in SIGMA:
+            vals.add((a, b))
+    for _ in range(60):
+        vals.add(tuple(rng.choice(SIGMA) for _ in range(3)))
+    for w in WHITE_SPACE:
+        vals.add((w,))
+        vals.add((w, 0x61, w))
+        vals.add((0x61, w, 0x62))
+    for sp in SPECIAL_STRINGS:
+        vals.add(tuple(sp))
+        vals.add(tuple([0x20] + sp + [0x3000]))
+    pool = SIGMA + WHITE_SPACE + [0x3A3, 0x130, 0xDF, 0xFB01, 0x1F600, 0x42, 0x7A, 0x5A, 0x39]
+    for _ in range(nrandom):
+        n = rng.randint(0, 6)
+        if rng.random() < 0.5:
+            vals.add(tuple(rng.choice(pool) for _ in range(n)))
+        else:
+            out = []
+            for _ in range(n):
+                c = rng.randint(0, 0x10FFFF)
+                if 0xD800 <= c <= 0xDFFF:
+                    c = 0x61
+                out.append(c)
+            vals.add(tuple(out))
+    return sorted(vals)
+
+
+def any_inputs(d, rng, nrandom):
+    vals = {()}
+    E = [1, 2, 3]
+    for a in E:
+        vals.add((a,))
+        for b in E:
+            vals.add((a, b))
+            for c in E:
+                vals.add((a, b, c))
+    for _ in range(nrandom):
+        vals.add(tuple(rng.randint(-5, 5) for _ in range(rng.randint(0, 5))))
+    return sorted(vals)
+
+
 # ------------------------------------------------------------------ script / observation handling
 
 def direct_eps(d):
